@@ -95,6 +95,7 @@ func checkC11(p *Prog, rp *Report) {
 		readOK   bool
 		blockOK  bool
 		verifyOK bool
+		second   bool // two clearsigned messages back to back: the first by a key the keyring does not know, the second verifies
 	}
 	runScenario := func(sc scenario, entry *ssa.Function) (*c11Outcome, string) {
 		m := NewMachine(p, nil)
@@ -192,6 +193,10 @@ func checkC11(p *Prog, rp *Report) {
 		m.Hooks["golang.org/x/crypto/openpgp/clearsign.Decode"] = func(m *Machine, st *State, call *ssa.CallCommon, args []Val) ([]Val, bool) {
 			out.decodeCalled = true
 			src := prov(st, args[0])
+			if strings.HasPrefix(src, "rest-of(") && !(sc.second && src == "rest-of(all-of(bufio(the-input)))") {
+				// nothing (more) after the message(s) of the scenario
+				return []Val{&TupleV{E: []Val{nilV{}, OpaqueV{"rest-of(" + src + ")"}}}}, true
+			}
 			if !sc.blockOK {
 				return []Val{&TupleV{E: []Val{nilV{}, OpaqueV{"rest-of(" + src + ")"}}}}, true
 			}
@@ -205,21 +210,26 @@ func checkC11(p *Prog, rp *Report) {
 			return []Val{&TupleV{E: []Val{Ptr{Obj: bid}, OpaqueV{"rest-of(" + src + ")"}}}}, true
 		}
 		verify := func(m *Machine, st *State, call *ssa.CallCommon, args []Val) ([]Val, bool) {
-			out.verified = append(out.verified, keyringID(st, args[0])+"|"+prov(st, args[1])+"|"+prov(st, args[2]))
+			good := sc.verifyOK
+			if sc.second {
+				good = strings.Contains(prov(st, args[1]), "[rest-of(")
+			}
+			out.verified = append(out.verified, keyringID(st, args[0])+"|"+prov(st, args[1])+"|"+prov(st, args[2])+"|"+map[bool]string{true: "ok", false: "fail"}[good])
 			// the library reads both streams to their end
 			for _, a := range args[1:3] {
 				if id, ok := objOf(a); ok {
 					drain(id)
 				}
 			}
-			if !sc.verifyOK {
-				return []Val{&TupleV{E: []Val{nilV{}, IfaceV{T: errType, V: "signature made by unknown entity"}}}}, true
+			if !good {
+				return []Val{&TupleV{E: []Val{nilV{}, errUnknownIssuerVal}}}, true
 			}
 			id := st.alloc(types.Typ[types.Int], OpaqueV{"the-signing-entity"})
 			return []Val{&TupleV{E: []Val{Ptr{Obj: id}, nilV{}}}}, true
 		}
 		m.Hooks["golang.org/x/crypto/openpgp.CheckDetachedSignature"] = verify
 		m.Hooks["golang.org/x/crypto/openpgp.CheckArmoredDetachedSignature"] = verify
+		m.ExtGlobals["golang.org/x/crypto/openpgp/errors.ErrUnknownIssuer"] = errUnknownIssuerVal
 		st := initState(m, "control")
 		src := st.alloc(types.Typ[types.Int], OpaqueV{"the-input"})
 		var kr Val = nilV{}
@@ -315,11 +325,12 @@ func checkC11(p *Prog, rp *Report) {
 		}
 		for _, keyring := range []string{"nil", "keys", "empty", "nil-list"} {
 			for _, sc := range []scenario{
-				{"plain input", false, keyring, true, true, true},
-				{"signed, verifies", true, keyring, true, true, true},
-				{"signed, verification fails", true, keyring, true, true, false},
-				{"signed, no block decodes", true, keyring, true, false, true},
-				{"signed, read error", true, keyring, false, true, true},
+				{"plain input", false, keyring, true, true, true, false},
+				{"signed, verifies", true, keyring, true, true, true, false},
+				{"signed, verification fails", true, keyring, true, true, false, false},
+				{"signed, no block decodes", true, keyring, true, false, true, false},
+				{"signed, read error", true, keyring, false, true, true, false},
+				{"two signed messages, the first by a key the keyring does not know", true, keyring, true, true, false, true},
 			} {
 				nscen++
 				o, why := runScenario(sc, entry)
@@ -353,30 +364,52 @@ func checkC11(p *Prog, rp *Report) {
 							verifiedOK = true
 						}
 					}
-					if success && (!verifiedOK || !sc.verifyOK) {
-						chkP = append(chkP, fmt.Sprintf("%s: reading succeeds although %s", desc, map[bool]string{true: "no verification against the caller's keyring took place (verification calls: " + fmt.Sprint(o.verified) + ")", false: "the signature did not verify"}[sc.verifyOK]))
+					anyGood := false
+					for _, v := range o.verified {
+						if strings.HasPrefix(v, "KEYRING|") && strings.HasSuffix(v, "|ok") {
+							anyGood = true
+						}
+					}
+					if success && (!verifiedOK || !anyGood) {
+						chkP = append(chkP, fmt.Sprintf("%s: reading succeeds although %s", desc, map[bool]string{true: "no verification against the caller's keyring took place (verification calls: " + fmt.Sprint(o.verified) + ")", false: "the signature did not verify"}[anyGood || !verifiedOK]))
 					}
 					if !success && sc.verifyOK && verifiedOK {
 						propP = append(propP, desc+": fails although the signature verified")
 					}
 					if success {
+						matched := false
 						for _, v := range o.verified {
 							parts := strings.Split(v, "|")
 							signed, sig := parts[1], parts[2]
-							want := ""
-							for _, f := range []string{"Bytes", "Plaintext"} {
-								if signed == "reader(block."+f+"[all-of(bufio(the-input))])" {
-									want = "bufio(reader(block." + f + "[all-of(bufio(the-input))]))"
+							if parts[3] != "ok" {
+								continue // a verification that failed vouches for nothing
+							}
+							// the message the verified bytes were decoded from: the whole input, or (second message) its rest
+							froms := []string{"all-of(bufio(the-input))"}
+							if sc.second {
+								froms = []string{"rest-of(all-of(bufio(the-input)))"}
+							}
+							want, from := "", ""
+							for _, fr := range froms {
+								for _, f := range []string{"Bytes", "Plaintext"} {
+									if signed == "reader(block."+f+"["+fr+"])" {
+										want, from = "bufio(reader(block."+f+"["+fr+"]))", fr
+									}
 								}
 							}
 							if want == "" {
-								sameP = append(sameP, fmt.Sprintf("%s: the data verified is %s, not the signed text of the block decoded from the whole input", desc, signed))
+								sameP = append(sameP, fmt.Sprintf("%s: the data verified is %s, not the signed text of the block decoded from the input", desc, signed))
 							} else if o.installed != want {
 								sameP = append(sameP, fmt.Sprintf("%s: verified %s but the text handed to the parser is %s", desc, signed, o.installed))
+							} else {
+								matched = true
 							}
-							if sig != "signature-body[all-of(bufio(the-input))]" {
+							if want != "" && sig != "signature-body["+from+"]" {
 								sameP = append(sameP, fmt.Sprintf("%s: the signature checked is %s, not the block's own ArmoredSignature.Body", desc, sig))
 							}
+						}
+						if !matched && len(sameP) == 0 {
+							sameP = append(sameP, fmt.Sprintf("%s: the text handed to the parser (%s) is not a text whose verification succeeded (verification calls: %v)", desc, o.installed, o.verified))
 						}
 						if o.signer != "the-signing-entity" {
 							sgnP = append(sgnP, fmt.Sprintf("%s: the reported signer is %q, not the entity returned by the verification", desc, o.signer))
